@@ -1137,11 +1137,14 @@ static void run_script(const vj::Value& s, vj::Rng& r) {
 
 // Runs `body` in a forked child.  Returns true when the child ended normally.  With `mark` the parent appends the
 // ABORT line for a dead child; without it the caller rolls the trace files back and retries in smaller pieces.
-static bool in_child(const std::function<void()>& body, bool mark = true) {
+static bool in_child(const std::function<void()>& body, bool mark = true, unsigned watchdog_s = 120) {
   for (int c = 0; c < NCOMP; c++) fflush(g_out[c]);
   *g_cur = C_ARENA;
   pid_t pid = fork();
   if (pid == 0) {
+    // a corrupted structure can make a container (or the projection) loop forever: SIGALRM ends the execution,
+    // which is then marked ABORT like any other crash
+    alarm(watchdog_s);
     std::set_terminate([] { _exit(70); });
     body();
     for (int c = 0; c < NCOMP; c++) fflush(g_out[c]);
@@ -1190,7 +1193,7 @@ int main(int argc, char** argv) {
       size_t b1 = std::min(scripts.size(), b0 + 64);
       off_t pos[NCOMP];
       for (int c = 0; c < NCOMP; c++) { fflush(g_out[c]); pos[c] = lseek(fileno(g_out[c]), 0, SEEK_END); }
-      bool ok = in_child([&] { for (size_t i = b0; i < b1; i++) { vj::Rng r(seed * 7919ull + i); run_script(scripts[i], r); } }, false);
+      bool ok = in_child([&] { for (size_t i = b0; i < b1; i++) { vj::Rng r(seed * 7919ull + i); run_script(scripts[i], r); } }, false, 300);
       if (ok) continue;
       for (int c = 0; c < NCOMP; c++) if (ftruncate(fileno(g_out[c]), pos[c]) != 0) return 3;
       for (size_t i = b0; i < b1; i++) in_child([&] { vj::Rng r(seed * 7919ull + i); run_script(scripts[i], r); });
